@@ -9,7 +9,10 @@ RULE = ("thr: N = 2..16 threads start together (the first use of the library in 
         "order depending on the thread, failing calls whose message identifies the thread (truncated stream, invalid argument, unsupported "
         "scaling factor), transformation, the instance-less helpers (tj3JPEGBufSize, tj3YUVBufSize, plane sizes, tj3GetScalingFactors, "
         "tj3Alloc/tj3Free), scaled decompression, 12-bit lossless compression, with instance creation and destruction inside the loop; "
-        "afterwards the same operations are run one thread at a time and every digest must be equal.  Variants: ASan/UBSan build, SIMD "
+        "afterwards the same operations are run one thread at a time and every digest must be equal.  thrh: instances created by one "
+        "thread (the main thread; in a second phase the neighbouring worker) are used by another, never by two at once; every thread, the "
+        "creating one included, makes calls that fail inside the libjpeg layer with a message naming the caller, and the error string "
+        "retrieved for the instance and for the thread must be the caller's own most recent failure.  Variants: ASan/UBSan build, SIMD "
         "build, and a ThreadSanitizer build (clang) in which any conflicting access of two threads stops the run")
 TRUSTED = ["ThreadSanitizer observes conflicting accesses on the schedules that occur; the theorem covers all schedules of the model"]
 ASSUMPTIONS = ["the schedules explored are those the OS produces on 16 cores; TSan reports races by happens-before, independent of the window being hit"]
@@ -29,6 +32,10 @@ def gen_ops(rng, tier):
     # derived tables) included - happens in all threads at once
     for i in range(40 if big else 6):
         ops.append("thr0 %d %d %d" % (rng.choice([2, 4, 8, 16]), rng.randrange(1 << 30), rng.choice([10, 30])))
+    # instances created by one thread and used by another (never by two at once), failing inside the libjpeg layer with messages that
+    # name the caller, while the creating thread fails on an instance of its own
+    for i in range(60 if big else 12):
+        ops.append("thrh %d %d %d" % (rng.choice([2, 3, 4, 8, 16]), rng.randrange(1 << 30), rng.choice([20, 60, 150])))
     return ops
 
 
